@@ -222,6 +222,44 @@ func TestC16(t *testing.T) {
 		}
 	}
 
+	// ---- the Msg servers the app registers (captured by re-running its RegisterServices against a recorder)
+	servers, _, capRes := captureServers(app.RegisterServices)
+	if capRes != "" {
+		out.Violate("re-running the app's RegisterServices against a recording configurator failed: " + capRes)
+	}
+	{
+		regImpl := map[string]string{}
+		if fp := os.Getenv("VERIF_FACTS"); fp != "" {
+			if bz, err := os.ReadFile(fp); err == nil {
+				var facts map[string]json.RawMessage
+				_ = json.Unmarshal(bz, &facts)
+				var regs []map[string]string
+				_ = json.Unmarshal(facts["C16.registrations"], &regs)
+				for _, r := range regs {
+					regImpl[r["service"]] = r["impl"]
+				}
+			}
+		}
+		implTypes := map[string]string{}
+		for _, u := range authMsgs {
+			sv, ok := servers[u]
+			if !ok {
+				out.Violate("routed authority message " + u + " is served by no Msg service the app's RegisterServices registers (captured " + fmt.Sprint(len(servers)) + " methods)")
+				continue
+			}
+			implTypes[u] = sv.implType
+			if k, fx := fxURL[u]; fx && len(regImpl) > 0 {
+				svc := k[:strings.LastIndex(k, ".")]
+				if want, ok := regImpl[svc]; !ok {
+					out.Violate("the regenerated registrations list no RegisterMsgServer site for service " + svc + " (message " + k + ")")
+				} else if want != sv.implType {
+					out.Violate("the running app serves " + k + " with a value of type " + sv.implType + ", the regenerated registrations say " + want)
+				}
+			}
+		}
+		out.Stats.Extra["registered_server_types"] = implTypes
+	}
+
 	// ---- valid payload builders for the fx-core messages
 	// a contract that exists, so that a governance-authorised MsgCallContract really takes effect
 	callee := helpers.GenHexAddress()
@@ -542,6 +580,86 @@ func TestC16(t *testing.T) {
 				}
 			}
 		}
+		// ---------------- handler level: the registered Msg servers called directly (no ValidateBasic, no branch), and the
+		// per-chain crosschain servers behind the crosschain router
+		hmsgs := append([]sdk.Msg{}, msgs...)
+		for _, m := range valid(rng)[:2] { // chain names the crosschain router has no route for
+			if f := reflect.ValueOf(m).Elem().FieldByName("ChainName"); f.IsValid() {
+				f.SetString(hx.Pick(rng, []string{"", "gov", "nosuch", "ETH", "erc20", "ethx", "et"}))
+				hmsgs = append(hmsgs, m)
+			}
+		}
+		for mi, m := range hmsgs {
+			sv, ok := servers[sdk.MsgTypeURL(m)]
+			if !ok {
+				continue
+			}
+			setAuthority(m, gov)
+			payloadOk := true
+			if v, ok := m.(sdk.HasValidateBasic); ok && v.ValidateBasic() != nil {
+				payloadOk = false
+			}
+			govOk := 0
+			if payloadOk {
+				if gerr, gp, _ := route(m); gerr == nil && gp == "" {
+					govOk = 1
+				}
+			}
+			lists := nonEmptyLists(m)
+			cs := candidates(rng, m)
+			if (mi+it)%3 == 0 || !payloadOk {
+				cs = append(cs, junk(rng)...)
+			} else {
+				j := junk(rng)
+				cs = append(cs, j[1], j[rng.Intn(len(j))], j[rng.Intn(len(j))]) // always the 0x spelling of the governance account
+			}
+			type target struct {
+				T    string
+				impl interface{}
+			}
+			targets := []target{{sv.implType, sv.impl}}
+			chain := chainOf(m)
+			_, chainMsg := m.(interface{ GetChainName() string })
+			hasRoute := chainMsg && app.CrosschainRouterKeeper.Router().HasRoute(chain)
+			if hasRoute {
+				ps := app.CrosschainRouterKeeper.Router().GetRoute(chain).MsgServer
+				targets = append(targets, target{typeKey(ps), ps})
+			}
+			for ti, tg := range targets {
+				for _, c := range cs {
+					setAuthority(m, c.val)
+					cctx, _ := base.CacheContext()
+					var err error
+					res := hx.Try(func() error { err = direct(cctx, sv, tg.impl, m); return nil })
+					changed := hx.DiffDump(baseDump, hx.DumpAll(cctx, keys))
+					obs := "past-guard"
+					switch {
+					case res != "ok":
+						out.Count("hcall-panic:" + msgKey(m)) // a zero payload under the governance authority: fails after the guard
+					case err == nil:
+					case ti == 0 && chainMsg && !hasRoute:
+						obs = "rejected:no-route"
+					case errors.Is(err, govtypes.ErrInvalidSigner):
+						obs = "rejected:signer"
+					}
+					if strings.HasPrefix(obs, "rejected") && len(changed) > 0 {
+						obs = "rejected-but-changed:" + strings.Join(changed, ",")
+					}
+					out.Emit(fmt.Sprintf("hcall %s %s %s %s %s %d %s", tg.T, msgKey(m), hx.HexS(gov), dash(hx.HexS(c.val)), chain, govOk, lists), obs)
+					out.Count("hcorr:" + c.kind + ":" + obs)
+					out.Nontrivial("h|" + tg.T + "|" + msgKey(m) + "|" + c.kind + "|" + obs)
+					// property monitor, handler level: only the canonical spelling of the governance address or a case variant
+					// of it (what the weakest comparison in use, strings.EqualFold, identifies with it) may get past the handler
+					if err == nil && res == "ok" {
+						if !strings.EqualFold(gov, c.val) {
+							out.Violate(fmt.Sprintf("handler level: privileged message %s delivered directly to the registered Msg server %s (the router's ValidateBasic bypassed) took effect with non-governance authority kind=%s (%q)", msgKey(m), tg.T, c.kind, c.val))
+						} else if !foldEq(gov, c.val) {
+							out.Count("handler-level:non-ascii-case-fold-spelling-accepted:" + msgKey(m))
+						}
+					}
+				}
+			}
+		}
 		// ---------------- bech32 / EqualFold on mutated spellings
 		for k := 0; k < 40; k++ {
 			sp := mutate(rng, gov, prefix, govBz)
@@ -589,6 +707,20 @@ func TestC16(t *testing.T) {
 							[]string{"# monitor: router.Handler(" + u + ") with Authority=" + fmt.Sprintf("%q", c.val) + " returned no error"})
 					} else if len(changed) > 0 {
 						out.Count("mon-rejected-after-writes:" + u)
+					}
+					// the same message delivered to the registered Msg server directly
+					if sv, ok := servers[u]; ok {
+						hctx, _ := base.CacheContext()
+						var herr error
+						hres := hx.Try(func() error { herr = direct(hctx, sv, sv.impl, m); return nil })
+						out.Stats.Evaluations++
+						out.Count("hmon:" + c.kind)
+						if hres != "ok" {
+							out.Count("hmon-panic:" + u)
+						} else if herr == nil && !strings.EqualFold(gov, c.val) {
+							out.ViolateWith(fmt.Sprintf("handler level: privileged message %s delivered directly to the registered Msg server %s took effect with non-governance authority kind=%s (%q)", u, sv.implType, c.kind, c.val),
+								[]string{"# monitor: " + sv.service + "/" + sv.method.MethodName + " on " + sv.implType + " with Authority=" + fmt.Sprintf("%q", c.val) + " returned no error"})
+						}
 					}
 				}
 			}
